@@ -40,8 +40,17 @@ def run_glue(ctx, focus, n_batches):
         max_length = rng.choice([250, 250, 3])
         max_step = rng.choice([10000000, 10000000, rng.randint(1, 30)])
         sents = [glue.rand_sentence(rng, len(cats), nmax=4 if ctx.quick else 5, full=rng.random() < 0.5) for _ in range(rng.randint(1, 4))]
-        res, rec = glue.run(sents, cats, roots, binary, unary, unary_penalty=pen8 / 8.0, beta=math.exp(-theta_odd / 16.0), use_beta=use_beta,
-                            pruning_size=pruning, nbest=nbest, max_step=max_step, max_length=max_length)
+        cfg = dict(unary_penalty=pen8 / 8.0, beta=math.exp(-theta_odd / 16.0), use_beta=use_beta, pruning_size=pruning, nbest=nbest,
+                   max_step=max_step, max_length=max_length)
+        try:
+            res, rec = glue.run(sents, cats, roots, binary, unary, **cfg)
+        except Exception as e:      # noqa
+            ctx.fail('run_raised', f'depccg.parsing.run raised {type(e).__name__}: {e} on a well-formed batch ({lang}, nbest={nbest})',
+                     {'lang': lang, 'config': {k: (v if not isinstance(v, float) else float(v)) for k, v in cfg.items()},
+                      'sentences': [{'tag': s.tag.tolist(), 'dep': s.dep.tolist(), 'words': [t.get('word') for t in s.tokens]} for s in sents]})
+            continue
+        if focus == 'c16':
+            reference_compare(ctx, sents, res, cats, roots, binary, unary, cfg, lang)
         ctx.count('glue:grammar:' + lang)
         if len(res) != len(sents):
             ctx.fail('result_count', f'{len(sents)} sentences in, {len(res)} result lists out', {'lang': lang})
@@ -71,3 +80,47 @@ def run_glue(ctx, focus, n_batches):
             ctx.sample({'glue_run': lang, 'first_tree': glue.auto_str(res[0][0].tree), 'score': res[0][0].score})
     ctx.coq_cases('retrieve_tree', glue.PRE, cases, chunk=60, describe=lambda i: descr[i])
     ctx.stats['retrieve_cases'] = len(cases)
+
+
+class IdGrammar:
+    """category-id view of Category-level rule functions (fresh ids for new result categories, like parsing.pyx)"""
+
+    def __init__(self, cats, binary, unary):
+        self.cats = list(cats)
+        self.ids = {c: i for i, c in enumerate(self.cats)}
+        self.binary, self.unary = binary, unary
+
+    def id(self, c):
+        if c not in self.ids:
+            self.ids[c] = len(self.cats)
+            self.cats.append(c)
+        return self.ids[c]
+
+    def bin(self, x, y):
+        return [(self.id(r.cat), r.head_is_left, r.op_string, r.op_symbol) for r in self.binary(self.cats[x], self.cats[y])]
+
+    def un(self, x):
+        return [(self.id(r.cat), True, r.op_string, r.op_symbol) for r in self.unary(self.cats[x])]
+
+
+def reference_compare(ctx, sents, res, cats, roots, binary, unary, cfg, lang):
+    """C16 (and configuration plumbing in general): what depccg.parsing.run returns must be what parse_sentence returns when it is
+    given the caller's configuration directly - beam options (pruning_size, beta, use_beta) included"""
+    import depccg_verif_rt as rt
+    for si, (s, rs) in enumerate(zip(sents, res)):
+        if len(s.tokens) > cfg['max_length']:
+            continue
+        g = IdGrammar(cats, binary, unary)
+        ref = rt.search(s.tag, s.dep, [g.id(r) for r in roots], g.bin, g.un, unary_penalty=cfg['unary_penalty'], beta=cfg['beta'],
+                        use_beta=cfg['use_beta'], pruning_size=cfg['pruning_size'], nbest=cfg['nbest'], max_step=cfg['max_step'], trace=False)
+        got_failed = len(rs) == 1 and glue.is_placeholder(rs[0])
+        data = {'lang': lang, 'config': {k: (float(v) if isinstance(v, float) else v) for k, v in cfg.items()}, 'tag': s.tag.tolist(), 'dep': s.dep.tolist()}
+        if (ref['status'] != 0) != got_failed:
+            ctx.fail('beam_config_not_honoured', f'sentence {si} ({lang}): run() {"failed" if got_failed else "parsed"} but the search with the caller\'s beam configuration '
+                     f'(pruning_size={cfg["pruning_size"]}, use_beta={cfg["use_beta"]}, beta={cfg["beta"]:.4g}) {"fails" if ref["status"] else "parses"}', data)
+            continue
+        if not got_failed:
+            ref_scores = [x['in'] + x['out'] for x in ref['goals']]
+            got_scores = [st.score for st in rs]
+            if len(ref_scores) != len(got_scores) or any(abs(a - b) > 1e-6 for a, b in zip(ref_scores, got_scores)):
+                ctx.fail('beam_config_not_honoured', f'sentence {si} ({lang}): run() returned scores {got_scores} but the search with the caller\'s configuration returns {ref_scores}', data)
